@@ -95,6 +95,11 @@ _tok('amb_exp1', [Rule('start', [[N('e')]]), Rule('?e', [[N('e'), T('P'), N('e')
      ['P', 'X'], {'ambiguous', 'amb'})
 _tok('amb_alias', [Rule('start', [[N('s'), N('s')], [N('s')]]), Rule('s', [Alt([A], alias='one'), Alt([A, A], alias='two'), [A, A, A]])],
      ['A', 'B'], {'ambiguous', 'amb'})
+# an inlined rule with an ambiguous split among its first symbols AND an ambiguous inlined child, itself inlined into its parent
+_tok('amb_nested_inl', [Rule('start', [[N('_c')]]), Rule('_c', [[N('p'), N('q'), N('_e')]]), Rule('p', [[A, Opt(B)]]), Rule('q', [[Opt(B), C]]),
+                        Rule('_e', [[N('f')], [N('g')]]), Rule('f', [[D]]), Rule('g', [[D]])], ['A', 'B', 'C', 'D'], {'ambiguous', 'amb'})
+_tok('amb_nested_inl2', [Rule('start', [[N('_c'), N('_c')]]), Rule('_c', [[N('x'), N('x'), N('_e')]]), Rule('x', [[A], [A, A]]),
+                         Rule('_e', [[N('f')], [N('g')], []]), Rule('f', [[B]]), Rule('g', [[B]])], ['A', 'B'], {'ambiguous', 'amb'})
 _tok('amb_null', [Rule('start', [[N('o'), A, N('o')]]), Rule('o', [[], [A], [N('o'), N('o2')]]), Rule('o2', [[B]])], ['A', 'B'], {'ambiguous', 'amb'})
 
 
@@ -143,6 +148,11 @@ _txt('ign2', [
     Rule('start', [[Plus(T('WORD'))]]),
 ], [Term('WORD', ('re', '[a-z]+')), Term('SP', ' '), Term('CONT', ' #'), Term('NLS', ('re', r'\n+'))], ignore=['SP', 'CONT', 'NLS'], tags={'dyn'})
 
+# a terminal with an optional tail: dynamic_complete re-matches every truncation of the longest match
+_txt('opttail', [
+    Rule('start', [[T('A'), T('B')], [T('A')]]),
+], [Term('A', ('re', 'a(bc)?')), Term('B', 'bc'), Term('IGN', 'cx')], ignore=['IGN'], tags={'ambiguous', 'dyn'})
+
 # colliding terminals: resolved dynamically by the Earley lexers
 _txt('collide', [
     Rule('start', [[Plus(N('x'))]]),
@@ -179,5 +189,7 @@ def _lex(name, terms, ignore=(), tags=()):
 _lex('kwid', [Term('NAME', ('re', '[a-z]+')), Term('IF', 'if'), Term('ON', 'on', flags='i'), Term('INT', ('re', '[0-9]+')),
               Term('FLOAT', ('re', r'[0-9]+\.[0-9]+')), Term('DOT', '.'), Term('WS', ('re', ' +'))], ignore=['WS'])
 _lex('prio', [Term('A', ('re', 'a+'), priority=2), Term('B', ('re', 'a+b?')), Term('C', 'ab'), Term('D', ('re', '[ab]c')), Term('E', 'abc', priority=1)])
+_lex('prio2', [Term('WORD', ('re', '[a-z]+'), priority=2), Term('IF', 'if'), Term('NUM', ('re', '[0-9]+')), Term('X', 'x', priority=3),
+               Term('LOW', ('re', '[a-z0-9]+'), priority=-1), Term('EQ', '12', priority=-1)])
 _lex('eqw', [Term('X', ('re', '[ab]')), Term('Y', ('re', '[bc]')), Term('Z', 'b'), Term('W', ('re', '[cd][cd]')), Term('V', 'cd')])
 _lex('ci', [Term('NAME', ('re', '[a-zA-Z]+')), Term('SEL', 'se', flags='i'), Term('KW', 'Se'), Term('NUM', ('re', '[0-9]')), Term('SP', ' ')], ignore=['SP'])
